@@ -605,3 +605,106 @@ def lift_constants(rng, f, p=0.5, names=('k1', 'k2')):
     for nm, val in chosen:
         f = map_formula(f, lambda h, nm=nm, val=val: V(nm) if (h[0] == 'const' and h[2] == val) else h)
     return f, chosen
+
+
+# ---------------------------------------------------------------------------------------
+# spelling variants (C15)
+
+# binding strength transcribed from the order of the alternatives of `expression` in StlParser.g4
+# (earlier alternative = binds tighter; every binary alternative is left-associative)
+LEVEL = {'neg': 21, 'mul': 20, 'div': 20, 'add': 19, 'sub': 19,
+         'leq': 18, 'lt': 18, 'geq': 18, 'gt': 18, 'eq': 18, 'neq': 18,
+         'not': 17, 'always': 16, 'eventually': 15, 'historically': 14, 'once': 13,
+         'prev': 12, 'next': 11, 's_prev': 10, 's_next': 9,
+         'until': 8, 'unless': 7, 'since': 6, 'and': 5, 'or': 4, 'implies': 3, 'iff': 2, 'xor': 1}
+PREFIX = ('neg', 'not', 'always', 'eventually', 'historically', 'once', 'prev', 'next', 's_prev', 's_next')
+CALLS = ('abs', 'sqrt', 'exp', 'ln', 'rise', 'fall', 'pow', 'log')
+
+
+class Style(object):
+    """How a variant is spelled."""
+
+    def __init__(self, alias=0.0, colon=0.0, extra_parens=0.0, minimal=False, rng=None):
+        self.alias, self.colon, self.extra_parens, self.minimal, self.rng = alias, colon, extra_parens, minimal, rng
+
+    def kw(self, o):
+        if o in ALIAS and self.rng is not None and self.rng.random() < self.alias:
+            return ALIAS[o]
+        return KW[o]
+
+    def ivl(self, i):
+        sep = ':' if (self.rng is not None and self.rng.random() < self.colon) else ','
+        return '[%s%s%s]' % (num(i[0]), sep, num(i[1]))
+
+    def wrap(self, s):
+        if self.rng is not None and self.rng.random() < self.extra_parens:
+            return '(%s)' % s
+        return s
+
+
+def to_variant(f, st):
+    """Print ``f`` in style ``st``; returns text that must parse to the same tree as to_text(f)."""
+    return _tv(f, st)[0]
+
+
+def _atom(f):
+    return is_leaf(f) and not (f[0] == 'const' and f[2] < 0) or f[0] in CALLS
+
+
+def _paren(txt):
+    return '(%s)' % txt
+
+
+def _tv(f, st):
+    """-> (text, kind) with kind in {'atom', 'prefix', 'binary'} describing the outermost shape."""
+    o = f[0]
+    if o == 'var':
+        return st.wrap(f[2]), 'atom'
+    if o == 'const':
+        if f[2] < 0:
+            return '(0 - %s)' % num(-f[2]), 'atom'
+        return st.wrap(num(f[2])), 'atom'
+    if o in CALLS:
+        args = ', '.join(_tv(k, st)[0] for k in kids(f))
+        return st.wrap('%s(%s)' % (o, args)), 'atom'
+    iv = '' if f[1] is None else st.ivl(f[1])
+    if not st.minimal:
+        ks = [_paren(_tv(k, st)[0]) if not _atom(k) else _tv(k, st)[0] for k in kids(f)]
+        if o in PREFIX:
+            return st.wrap('(%s%s %s)' % (st.kw(o), iv, ks[0])), 'atom'
+        return st.wrap('(%s %s%s %s)' % (ks[0], st.kw(o), iv, ks[1])), 'atom'
+    L = LEVEL[o]
+    if o in PREFIX:
+        k = f[2]
+        t, kind = _tv(k, st)
+        if kind == 'binary' and LEVEL[k[0]] < L:
+            t = _paren(t)
+        return st.wrap('%s%s %s' % (st.kw(o), iv, t)) if False else '%s%s %s' % (st.kw(o), iv, t), 'prefix'
+    l, r = f[2], f[3]
+    lt, lk = _tv(l, st)
+    rt, rk = _tv(r, st)
+    if lk == 'binary' and LEVEL[l[0]] < L:
+        lt = _paren(lt)
+    elif lk == 'prefix' and not LEVEL[l[0]] > L:
+        lt = _paren(lt)
+    elif lk == 'prefix' and _prefix_tail_absorbs(l, L):
+        lt = _paren(lt)
+    if rk == 'binary' and LEVEL[r[0]] <= L:
+        rt = _paren(rt)
+    elif rk == 'prefix':
+        rt = _paren(rt)
+    return '%s %s%s %s' % (lt, st.kw(o), iv, rt), 'binary'
+
+
+def _prefix_tail_absorbs(l, L):
+    """A prefix operator printed without parentheses as a *left* operand: 'always x and y' is
+    '(always x) and y' only if no prefix operator along its right spine binds looser than the
+    binary operator that follows."""
+    g = l
+    while g[0] in PREFIX:
+        if LEVEL[g[0]] <= L:
+            return True
+        g = g[2]
+    # the innermost operand is an atom or a binary printed (with parentheses if needed) at the level of the
+    # last prefix operator; a trailing binary operator of level L then attaches outside iff L < that level
+    return False
